@@ -117,6 +117,8 @@ where
         } else {
             let mut rng = thread_rng();
             let pivot_index = rng.gen_range(0..n);
+            #[cfg(feature = "verif_hooks")]
+            let pivot_index = crate::verif_hooks::pivot(n, pivot_index);
             let partition_index = self.partition_mut(pivot_index);
             if i < partition_index {
                 self.slice_axis_mut(Axis(0), Slice::from(..partition_index))
@@ -252,6 +254,8 @@ fn _get_many_from_sorted_mut_unchecked<A>(
     // We pick a random pivot index: the corresponding element is the pivot value
     let mut rng = thread_rng();
     let pivot_index = rng.gen_range(0..n);
+    #[cfg(feature = "verif_hooks")]
+    let pivot_index = crate::verif_hooks::pivot(n, pivot_index);
 
     // We partition the array with respect to the pivot value.
     // The pivot value moves to `array_partition_index`.
